@@ -18,7 +18,7 @@ import (
 	"verif/harness/sm"
 )
 
-const ruleC15 = "(a) the same generated single-threaded history (all operation kinds, indexes, sorted and windowed queries, failing operations, Close followed by further calls) runs on bbolt, badger in memory and badger on disk with small files (thorough: also badger with the shipped default options); after every step the outcomes must be identical across backends - same error class (same sentinel, or an error on all), same documents in the same order, same counts, booleans and catalogs - and each backend is also checked against the reference model. (b) cursor contract on both adapters directly: 0-40 keys of 1-64 bytes (prefix-related, some with empty values) written through Tx.Set and read either after commit or inside the writing transaction; for seek targets present, absent, before the first and after the last key, forward and reverse: the cursor lands on the first key >= target (forward) or the last key <= target (reverse), then visits every key once in order until invalid; Item returns the stored key and value; Get returns the value or nil. An evaluation is one history step or one cursor case; non-trivial for (a) when the step returns documents or an error, for (b) when the target is absent or outside the key range or an empty value is present; distinct = distinct (operation, state) resp. (keys, target, direction, mode)."
+const ruleC15 = "(a) the same generated single-threaded history (all operation kinds, indexes, sorted and windowed queries, failing operations, Close followed by further calls) runs on bbolt, badger in memory and badger on disk with small files (thorough: also badger with the shipped default options); after every step the outcomes must be identical across backends - same error class (same sentinel, or an error on all), same documents in the same order, same counts, booleans and catalogs - and each backend is also checked against the reference model. (b) cursor contract on both adapters directly: 0-40 keys of 1-64 bytes (prefix-related, some with empty values) written through Tx.Set and read either after commit or inside the writing transaction; for seek targets present, absent, before the first and after the last key, forward and reverse: the cursor lands on the first key >= target (forward) or the last key <= target (reverse), then visits every key once in order until invalid; Item returns the stored key and value; Get returns the value or nil; keys deleted again (in the same or a later transaction) are gone for Get and for every cursor, a transaction that wrote and deleted keys and was rolled back leaves no trace, and two cursors open at the same time in one read-only transaction keep independent positions. An evaluation is one history step or one cursor case; non-trivial for (a) when the step returns documents or an error, for (b) when the target is absent or outside the key range or an empty value is present; distinct = distinct (operation, state) resp. (keys, target, direction, mode)."
 
 var c15Secondaries = map[*sm.Session][]*sm.Session{}
 
@@ -132,7 +132,7 @@ func c15Profile() *sm.Profile {
 		Crit:        gen.CritEnv{Val: gen.ValCfg{MaxDepth: 1}, GoKinds: true, MaxDepth: 3},
 		Weights: []sm.W{{Kind: "createcoll", Weight: 4}, {Kind: "dropcoll", Weight: 2}, {Kind: "insert", Weight: 12}, {Kind: "save", Weight: 3}, {Kind: "replace", Weight: 3},
 			{Kind: "updatebyid", Weight: 5}, {Kind: "update", Weight: 5}, {Kind: "updatefunc", Weight: 5}, {Kind: "delete", Weight: 4}, {Kind: "deletebyid", Weight: 4},
-			{Kind: "createindex", Weight: 6}, {Kind: "dropindex", Weight: 3}, {Kind: "find", Weight: 18}, {Kind: "foreach", Weight: 4}, {Kind: "count", Weight: 4},
+			{Kind: "createindex", Weight: 6}, {Kind: "dropindex", Weight: 3}, {Kind: "find", Weight: 16}, {Kind: "iterate", Weight: 3}, {Kind: "foreach", Weight: 4}, {Kind: "count", Weight: 4},
 			{Kind: "exists", Weight: 2}, {Kind: "findfirst", Weight: 3}, {Kind: "findbyid", Weight: 3}, {Kind: "listcolls", Weight: 2}, {Kind: "hascoll", Weight: 1},
 			{Kind: "listindexes", Weight: 2}, {Kind: "hasindex", Weight: 1}, {Kind: "createbyquery", Weight: 2}, {Kind: "close", Weight: 1}, {Kind: "biginsert", Weight: 1}},
 	}
@@ -148,6 +148,8 @@ type c15Cursor struct {
 	Keys    [][]byte `json:"keys"`
 	Empty   []bool   `json:"empty"` // key i has an empty value
 	Targets [][]byte `json:"targets"`
+	Del     []bool   `json:"del,omitempty"`    // key i is deleted again before the reads
+	Rolled  [][]byte `json:"rolled,omitempty"` // keys written and deleted by a transaction that is rolled back
 }
 
 func runCursor(c *c15Cursor) *sm.Fail {
@@ -189,15 +191,61 @@ func cursorBody(c *c15Cursor) *sm.Fail {
 		}
 		want[string(k)] = v
 	}
+	// some keys are deleted again: in the same transaction, or (committed data) in a second one
+	if !c.SameTx && len(c.Del) > 0 {
+		if err := tx.Commit(); err != nil {
+			return bad("commit: %v", err)
+		}
+		if tx, err = st.Begin(true); err != nil {
+			return bad("begin: %v", err)
+		}
+	}
+	for i, k := range c.Keys {
+		if i < len(c.Del) && c.Del[i] {
+			if err := tx.Delete(k); err != nil {
+				tx.Rollback()
+				return bad("Delete(%q): %v", k, err)
+			}
+			delete(want, string(k))
+		}
+	}
 	if !c.SameTx {
 		if err := tx.Commit(); err != nil {
 			return bad("commit: %v", err)
+		}
+		if len(c.Rolled) > 0 {
+			// a transaction that writes new keys and deletes stored ones, then rolls back: no trace
+			rtx, err := st.Begin(true)
+			if err != nil {
+				return bad("begin: %v", err)
+			}
+			for _, k := range c.Rolled {
+				if _, stored := want[string(k)]; stored {
+					err = rtx.Delete(k)
+				} else {
+					err = rtx.Set(k, []byte("rolled-back"))
+				}
+				if err != nil {
+					rtx.Rollback()
+					return bad("write in the transaction to roll back (%q): %v", k, err)
+				}
+			}
+			if err := rtx.Rollback(); err != nil {
+				return bad("Rollback: %v", err)
+			}
 		}
 		if tx, err = st.Begin(false); err != nil {
 			return bad("begin: %v", err)
 		}
 	}
 	defer tx.Rollback()
+	for i, k := range c.Keys {
+		if i < len(c.Del) && c.Del[i] {
+			if v, err := tx.Get(k); err != nil || v != nil {
+				return bad("Get of the deleted key %q = %q, %v (expected nil, nil)", k, v, err)
+			}
+		}
+	}
 	sorted := make([]string, 0, len(want))
 	for k := range want {
 		sorted = append(sorted, k)
@@ -259,6 +307,69 @@ func cursorBody(c *c15Cursor) *sm.Fail {
 			}
 		}
 	}
+	// two cursors open at the same time in one read-only transaction, stepped alternately: each
+	// keeps its own position (a read-write badger transaction allows one iterator only, so this
+	// part needs the committed data)
+	if !c.SameTx && len(c.Targets) >= 2 {
+		expect := func(target []byte, forward bool) []string {
+			var exp []string
+			if forward {
+				exp = sorted[sort.SearchStrings(sorted, string(target)):]
+			} else {
+				i := sort.Search(len(sorted), func(i int) bool { return sorted[i] > string(target) })
+				for j := i - 1; j >= 0; j-- {
+					exp = append(exp, sorted[j])
+				}
+			}
+			return exp
+		}
+		for i := 0; i+1 < len(c.Targets) && i < 4; i++ {
+			fa, fb := i%2 == 0, i%3 == 0
+			ta, tb := c.Targets[i], c.Targets[i+1]
+			ea, eb := expect(ta, fa), expect(tb, fb)
+			ca, err := tx.Cursor(fa)
+			if err != nil {
+				return bad("Cursor: %v", err)
+			}
+			cb, err := tx.Cursor(fb)
+			if err != nil {
+				ca.Close()
+				return bad("second Cursor: %v", err)
+			}
+			fail := func(f string, a ...interface{}) *sm.Fail {
+				ca.Close()
+				cb.Close()
+				return bad("two open cursors (seek %q forward=%v and seek %q forward=%v): "+f, append([]interface{}{ta, fa, tb, fb}, a...)...)
+			}
+			if err := ca.Seek(ta); err != nil {
+				return fail("Seek: %v", err)
+			}
+			if err := cb.Seek(tb); err != nil {
+				return fail("Seek: %v", err)
+			}
+			var ga, gb []string
+			for step := 0; step <= 2*len(sorted)+4 && (ca.Valid() || cb.Valid()); step++ {
+				cur, got := ca, &ga
+				if (step%2 == 1 && cb.Valid()) || !ca.Valid() {
+					cur, got = cb, &gb
+				}
+				it, err := cur.Item()
+				if err != nil {
+					return fail("Item: %v", err)
+				}
+				*got = append(*got, string(it.Key))
+				cur.Next()
+			}
+			if strings.Join(ga, "\x00") != strings.Join(ea, "\x00") || len(ga) != len(ea) {
+				return fail("the first cursor visits %q, expected %q", clipKeys(ga), clipKeys(ea))
+			}
+			if strings.Join(gb, "\x00") != strings.Join(eb, "\x00") || len(gb) != len(eb) {
+				return fail("the second cursor visits %q, expected %q", clipKeys(gb), clipKeys(eb))
+			}
+			ca.Close()
+			cb.Close()
+		}
+	}
 	return nil
 }
 
@@ -282,7 +393,7 @@ func init() {
 func TestC15(t *testing.T) {
 	col := collector("C15", ruleC15)
 	t.Run("histories", func(t *testing.T) {
-		check(t, "C15", cases(250, 5000), ev.Scale(20, 30), func(rt *rapid.T) {
+		check(t, "C15", cases(250, 12000), ev.Scale(20, 30), func(rt *rapid.T) {
 			backend := "multi"
 			if ev.Thorough() && rapid.IntRange(0, 19).Draw(rt, "default-options") == 0 {
 				backend = "multi+default"
@@ -321,7 +432,7 @@ func TestC15(t *testing.T) {
 	})
 	t.Run("cursor", func(t *testing.T) {
 		alphabet := []byte{0x00, 0x01, 'a', 'b', 'c', ';', ':', 0xfe, 0xff}
-		check(t, "C15", cases(4000, 120000), 0, func(rt *rapid.T) {
+		check(t, "C15", cases(4000, 300000), 0, func(rt *rapid.T) {
 			c := &c15Cursor{Backend: rapid.SampledFrom([]string{run.Bbolt, run.BadgerMem}).Draw(rt, "backend"), SameTx: rapid.Bool().Draw(rt, "sametx")}
 			key := func(label string) []byte {
 				n := rapid.SampledFrom([]int{1, 1, 2, 2, 3, 4, 8, 64}).Draw(rt, label+"len")
@@ -344,14 +455,34 @@ func TestC15(t *testing.T) {
 				e := rapid.IntRange(0, 3).Draw(rt, "empty") == 0
 				anyEmpty = anyEmpty || e
 				c.Empty = append(c.Empty, e)
+				c.Del = append(c.Del, rapid.IntRange(0, 4).Draw(rt, "deleted") == 0)
+			}
+			if !c.SameTx && rapid.Bool().Draw(rt, "with-rollback") {
+				for i := rapid.IntRange(1, 4).Draw(rt, "nrolled"); i > 0; i-- {
+					if len(c.Keys) > 0 && rapid.Bool().Draw(rt, "rolled-stored") {
+						c.Rolled = append(c.Rolled, append([]byte{}, rapid.SampledFrom(c.Keys).Draw(rt, "rolledkey")...))
+					} else {
+						c.Rolled = append(c.Rolled, key("r"))
+					}
+				}
 			}
 			sorted := make([]string, 0, len(c.Keys))
-			for _, k := range c.Keys {
+			for i, k := range c.Keys {
+				if c.Del[i] {
+					delete(seen, string(k))
+					continue
+				}
 				sorted = append(sorted, string(k))
 			}
 			sort.Strings(sorted)
 			nt := anyEmpty
 			cl := []string{"cursor", "backend:" + c.Backend, fmt.Sprintf("sametx:%v", c.SameTx)}
+			if len(sorted) < len(c.Keys) {
+				cl = append(cl, "with-deleted-keys")
+			}
+			if len(c.Rolled) > 0 {
+				cl = append(cl, "with-rolled-back-transaction")
+			}
 			for i := rapid.IntRange(1, 4).Draw(rt, "ntargets"); i > 0; i-- {
 				var tgt []byte
 				switch rapid.IntRange(0, 5).Draw(rt, "tkind") {
